@@ -692,6 +692,39 @@ def run(chk):
                    lambda kw: annot.dump(pp.create_annotation(**_copy.deepcopy(kw))),
                    compare=lambda im, m: im == annot.canon_dump(m), nontrivial_fn=lambda kw, im: len(kw) > 2)
 
+    # ------------------------------------------------------------------ text-exact: the str-level wrappers of sequence_funcs
+    texts = [a.serialize(include_plus=(i % 2 == 1)) for i, a in enumerate(anns)]
+    texts += ['PEPTIDE', '[Acetyl]-PEPTIDE[1.234]-[Amide]', '<13C><[+1.234]@P>PEP', '{Glycan:Hex}PEP', '[Phospho]^3?PEPTIDE',
+              'PEP(TI)[Phospho]DE', 'PEPTIDE/+2[+2Na+,-H+]', 'PEP+TIDE', 'PEP//TIDE', 'PE[', '', 'PEP[+1.0][+1]^2TIDE',
+              '(?DQ)NGTWEM[Oxidation]ESNENFEGYM[Oxidation]K', 'PEP[Formula:[13C]H12]TIDE', 'pep', 'PEP/0']
+
+    def s_wrap(fn):
+        def g(c):
+            try:
+                return 'S' + annot.esc(fn(c))
+            except Exception as e:  # noqa
+                return 'ERR:' + type(e).__name__
+        return g
+    sga = [(st, plus, app) for st in texts for plus in (False, True) for app in (True, False)]
+    chk.correspond('text_strip_get_add', DRV, sga, lambda c: f's_stripgetadd\t{int(c[1])}\t{int(c[2])}\t{annot.esc(c[0])}',
+                   s_wrap(lambda c: pt.add_mods(pt.strip_mods(c[0]), pt.get_mods(c[0]), append=c[2], include_plus=c[1])),
+                   nontrivial_fn=lambda c, im: '%5B' in im or '%7B' in im or '%3C' in im)
+    chk.correspond('text_pop_add', DRV, [(st, plus) for st in texts for plus in (False, True)],
+                   lambda c: f's_popadd\t{int(c[1])}\t{annot.esc(c[0])}',
+                   s_wrap(lambda c: pt.add_mods(*pt.pop_mods(c[0]), include_plus=c[1])),
+                   nontrivial_fn=lambda c, im: '%5B' in im or '%7B' in im or '%3C' in im)
+    chk.correspond('text_strip_mods', DRV, texts, lambda st: f's_strip\t{annot.esc(st)}', s_wrap(lambda st: pt.strip_mods(st)),
+                   nontrivial_fn=lambda st, im: im != 'S' + annot.esc(st))
+
+    def getmods_impl(st):
+        try:
+            return 'D' + show_dict(pt.get_mods(st))
+        except Exception as e:  # noqa
+            return 'ERR:' + type(e).__name__
+    chk.correspond('text_get_mods', DRV, texts, lambda st: f's_getmods\t{annot.esc(st)}', getmods_impl,
+                   compare=lambda im, m: im == (('D' + canon_dict(m[1:])) if m.startswith('D') else m),
+                   nontrivial_fn=lambda st, im: len(im) > 1)
+
     # ------------------------------------------------------------------ oracle: the property on the implementation
     def o_equality(d):
         a = annot.undump(d)
